@@ -155,14 +155,14 @@ class World:
             client.key = res.value['key']
         return res
 
-    def add_key(self, client, new_client, *, shared=False, clone=False, settings=None, opts=None, **kw):
+    def add_key(self, client, new_client, *, shared=False, clone=False, settings=None, opts=None, key_output_path=None, **kw):
         """Mirrors the CLI: shared/clone unlock first; clone reuses the caller's password."""
         async def act(repo):
             if shared or clone:
                 await repo.unlock(password=client.password, key=client.key)
             r = await repo.add_key(password=new_client.password if not clone else client.password,
                                    settings=gen.copy_settings(settings) if settings else None,
-                                   shared=shared or clone)
+                                   shared=shared or clone, **({'key_output_path': key_output_path} if key_output_path else {}))
             return repo.serialize(r.new_key)
         res = self.run(client, act, opts, unlock=False, **kw)
         if res.ok:
